@@ -239,6 +239,17 @@ func run1(t *testing.T, c Case) (res Result) {
 			if posOf(P) != before {
 				viol("C13/primary-moved-while-halted", "the primary's position moved %s -> %s while halted without a forwarded commit", before, posOf(P))
 			}
+			if c.Variant == 1 {
+				// deleting the database file on the primary is a local transaction too
+				rmErr := P.M.Remove("db")
+				if posOf(P) != before {
+					viol("C13/local-drop-while-halted", "unlink of the database on the primary while a replica holds the halt lock committed a deletion: position %s -> %s (unlink returned %v)", before, posOf(P), rmErr)
+					return
+				}
+				if rmErr == nil {
+					viol("C13/local-drop-accepted-while-halted", "unlink of the database on the primary while a replica holds the halt lock returned success")
+				}
+			}
 			// (3) forwarded commits are applied on the primary before the replica's commit returns
 			for i := 0; i < 2; i++ {
 				ok, err, step := w.txOn(R, 3, []uint32{2, 3})
